@@ -120,6 +120,15 @@ def solve_one(ob, timeout_ms=10000, use_cvc5=True, cross=False, finite=True, ski
     else:
         r = _z3_check(ob, min(2000, timeout_ms))
     ob.time = getattr(ob, "time", 0.0) + time.time() - t0
+    if ob.verdict == "unknown" and use_cvc5 and not skip_short:
+        # cvc5 proves many quantified goals at once that z3 leaves open: a short try before the counter-model search
+        text0 = to_smt2(ob.assumptions, ob.goal)
+        out0, dt0 = run_cli([CVC5, "--strings-exp", "--tlimit=%d" % min(3000, timeout_ms)], text0, min(3000, timeout_ms) / 1000)
+        ob.time += dt0
+        if out0 == "unsat":
+            ob.verdict = "discharged"
+            ob.solver = "cvc5-1.0.3"
+            return ob
     if ob.verdict == "unknown" and finite:
         # counter-model search on a finite instantiation (weaker formula: the model is only a
         # candidate, confirmed or discarded by native replay)
@@ -167,10 +176,10 @@ def solve_one(ob, timeout_ms=10000, use_cvc5=True, cross=False, finite=True, ski
         if out == "unsat":
             ob.verdict = "discharged"
             ob.solver = "cvc5-1.0.3"
-        elif out == "sat" and not _has_quant(ob):
+        elif out == "sat" and False:
+            # a CLI `sat` comes without a model we can validate or replay (and the textual export may
+            # differ in corner semantics, e.g. int<->string): only `unsat` is taken from the CLI solvers
             ob.verdict = "refuted"
-            ob.solver = "cvc5-1.0.3"
-            ob.model = None
         else:
             ob.detail += " cvc5: " + out
             if timeout_ms > 2000:
@@ -187,9 +196,8 @@ def solve_one(ob, timeout_ms=10000, use_cvc5=True, cross=False, finite=True, ski
             if out2 == "unsat":
                 ob.verdict = "discharged"
                 ob.solver = "z3-4.8.12"
-            elif out2 == "sat" and not _has_quant(ob):
+            elif out2 == "sat" and False:
                 ob.verdict = "refuted"
-                ob.solver = "z3-4.8.12"
             else:
                 ob.detail += " z3cli: " + out2
     return ob
